@@ -5,6 +5,7 @@
 //                   answered false on all of them (the predicate sees `&&T`);
 //   position(pred)  returns the FIRST index whose element satisfies the predicate, None if none;
 //   Vec::remove(i)  panics unless i < len, removes exactly that element, keeps the order;
+//   Vec::swap_remove(i) panics unless i < len, moves the last element into position i;
 //   (Option<&T>::cloned is specified by vstd: clones the element.)
 // (vstd's own spec of Iterator::find has no first-match / None half and a provided trait method
 // cannot be given an assume_specification, hence this shadow type in module `tlv` of the unit.)
@@ -30,6 +31,13 @@ pub mod vec_model {
         pub fn remove(&mut self, i: usize) -> (r: T)
             requires i < old(self)@.len(),          // std: panics otherwise
             ensures final(self)@ == old(self)@.remove(i as int), r == old(self)@[i as int]
+        { unimplemented!() }
+        #[verifier::external_body]
+        pub fn swap_remove(&mut self, i: usize) -> (r: T)
+            requires i < old(self)@.len(),          // std: panics otherwise
+            // std: the removed element is replaced by the last element (order NOT preserved)
+            ensures r == old(self)@[i as int],
+                final(self)@ == (if i as int == old(self)@.len() - 1 { old(self)@.drop_last() } else { old(self)@.drop_last().update(i as int, old(self)@.last()) })
         { unimplemented!() }
     }
     impl<'a, T> VIter<'a, T> {
